@@ -82,6 +82,7 @@ class ImgFn:
         self.depth = 0
         self.carry = {}        # carry atom -> dict(var, loop, amount)
         self.decl_stack = {}   # local pointer -> loops enclosing its declaration
+        self.virtual = set()   # ids of the quotient / remainder loops a flat loop is split into
         self.order = []
 
     def atom_of(self, did):
@@ -99,7 +100,28 @@ class ImgFn:
         return v if isinstance(v, Poly) else None
 
     def ev(self):
-        return Evaluator(self.tu, lambda n, did: self.atom_of(did), None, self.call_value)
+        return Evaluator(self.tu, lambda n, did: self.atom_of(did), None, self.call_value, divmod=self.divmod)
+
+    def divmod(self, n, a, b, op):
+        """`i / K` and `i % K` of the variable of a flat loop `for (i = 0; i < K * M; i++)`, K a positive constant: the loop
+        visits every (q, r) in [0, M) x [0, K) exactly once, as i = K*q + r, and since i >= 0 the quotient is q and the
+        remainder r.  The loop is recorded as split; what was evaluated with `i` itself is rewritten afterwards"""
+        K = b.const_value()
+        if K is None or K < 1:
+            return None
+        if a.const_value() is not None and a.const_value() >= 0:
+            return Poly.const(a.const_value() // K if op == '/' else a.const_value() % K)
+        for vid, l in self.loops.items():
+            if a != Poly.atom(('sym', l['name'])) or 'value' in l or vid in self.virtual:
+                continue
+            cnt = l.get('count')
+            if l.get('step', 1) != 1 or cnt is None or l.get('inc_extra') or any(v % K for v in cnt.t.values()):
+                return None
+            if l.get('split', K) != K:
+                return None
+            l['split'] = K
+            return Poly.atom(('sym', '(%s%s%d)' % (l['name'], op, K)))
+        return None
 
     def call_value(self, n):
         """value of a call of a small helper of the utility namespace: parameters bound, body = local constants + return"""
@@ -680,6 +702,39 @@ def check_write_image(ctx, tu, f):
                     walk(c, stack)
 
         walk(body, [])
+        # a flat loop whose variable is taken apart with / and %: two nested loops (quotient outside, remainder inside)
+        for vid, l in list(img.loops.items()):
+            K = l.get('split')
+            if K is None:
+                continue
+            if any(vid in c_.get('outer', ()) or c_.get('loop') == vid for c_ in img.carry.values()):
+                raise Undecided('pointer advanced in the flat loop `%s`, whose variable is split with / and %%' % l['name'])
+            qn, rn = '(%s/%d)' % (l['name'], K), '(%s%%%d)' % (l['name'], K)
+            qid, rid = str(vid) + '#q', str(vid) + '#r'
+            M = Poly({m_: v_ // K for m_, v_ in l['count'].t.items()})
+            base_ = {'node': l['node'], 'depth': l['depth'], 'step': 1, 'inc_extra': []}
+            img.loops[qid] = dict(base_, name=qn, id=qid, bound=M, count=M)
+            img.loops[rid] = dict(base_, name=rn, id=rid, bound=Poly.const(K), count=Poly.const(K))
+            img.virtual |= {qid, rid}
+            ia = ('sym', l['name'])
+            val = Poly.atom(('sym', qn)) * K + Poly.atom(('sym', rn))
+
+            def sub_p(p_):
+                return p_.subst(ia, val) if isinstance(p_, Poly) and ia in p_.atoms() else p_
+
+            def sub_ptr(bp_):
+                return ('ptr', bp_[1], sub_p(bp_[2]), bp_[3]) if isinstance(bp_, tuple) and bp_ and bp_[0] == 'ptr' else bp_
+
+            def sub_stack(st_):
+                out_ = []
+                for v_ in st_:
+                    out_ += [qid, rid] if v_ == vid else [v_]
+                return out_
+
+            reads[:] = [(sub_ptr(bp_), sub_p(ix_), n_, sub_stack(st_)) for bp_, ix_, n_, st_ in reads]
+            writes[:] = [(sub_ptr(bp_), sub_p(ix_), n_, sub_stack(st_)) for bp_, ix_, n_, st_ in writes]
+            fwrites[:] = [(n_, sub_stack(st_), sub_ptr(fp_), sub_p(e1_), sub_p(e2_)) for n_, st_, fp_, e1_, e2_ in fwrites]
+            allocs[:] = [(vd_, pv_, sub_stack(st_)) for vd_, pv_, st_ in allocs]
     except Undecided as u:
         ctx.undecided(R, inst, str(u), tu.fn_loc(f))
         return
@@ -3525,6 +3580,16 @@ def check_iteration(ctx, tu, f, R):
         if k == 'VarDecl' and (BEGIN_STACK_RX.search(n.get('type', {}).get('qualType', '')) or
                                BEGIN_STACK_RX.search(n.get('type', {}).get('desugaredQualType', ''))):
             stacks.append((n, list(lctx), fn))
+        elif k == 'VarDecl':
+            # an object of a tracing class that keeps the begin stack as a member: the stack lives as long as the object
+            vt_ = n.get('type', {}).get('qualType', '')
+            if '&' not in vt_ and '*' not in vt_:
+                ct_ = re.sub(r'^(const|volatile)\s+', '', (tu.sd(n['id']) or {}).get('ct', '') or
+                             n.get('type', {}).get('desugaredQualType', '') or vt_)
+                rec_ = tu.records_by_type.get(ct_)
+                if rec_ is not None and rec_.get('q', '').startswith(TR) and \
+                        any(BEGIN_STACK_RX.search(fd.get('ct', '')) for fd in rec_.get('fields', ())):
+                    stacks.append((n, list(lctx), fn))
         if k in ('CallExpr', 'CXXMemberCallExpr'):
             callee = tu.callee_fn(n)
             if callee is not None and callee['q'].startswith(TR) and tu.body(callee) is not None and depth < 4 and \
@@ -3627,12 +3692,14 @@ def check_iteration(ctx, tu, f, R):
                     found_skips.append((sk_, cs_))
             if emits(st_):
                 emitted = True
-        def event_only(c, depth=0):
+        def event_only(c, evids=(), depth=0):
             """does the condition depend on nothing but the event being visited (its type, fields, flags derived from it)"""
             if depth > 4:
                 return False
             for x in tu.walk(c):
                 k_ = x.get('kind')
+                if k_ == 'CXXThisExpr':
+                    return False              # state of the object the helper belongs to
                 if k_ in ('CallExpr', 'CXXMemberCallExpr', 'CXXOperatorCallExpr') and \
                         not tu.sd(x).get('q', '').split('::')[-1].startswith('operator'):
                     return False
@@ -3640,15 +3707,103 @@ def check_iteration(ctx, tu, f, R):
                     rd = x.get('referencedDecl', {})
                     if rd.get('kind') in ('EnumConstantDecl', 'FunctionDecl', 'CXXMethodDecl'):
                         continue
-                    if rd.get('id') == entry['var']:
+                    if rd.get('id') == entry['var'] or rd.get('id') in evids:
                         continue
                     vd_ = tu.node(rd.get('id'))
-                    if vd_ is not None and vd_.get('kind') == 'VarDecl' and tu.kids(vd_) and event_only(tu.kids(vd_)[0], depth + 1):
+                    if vd_ is not None and vd_.get('kind') == 'VarDecl' and tu.kids(vd_) and \
+                            event_only(tu.kids(vd_)[0], evids, depth + 1):
                         continue
                     return False
             return True
 
+        # a skip taken on the boolean result of a tracing helper that receives the event is taken exactly on the paths
+        # of the helper that return that value: the conditions of those paths replace the call
+        def bool_call(c):
+            x = tu.strip(c, casts=True)
+            hops = 0
+            while x is not None and hops < 4:
+                hops += 1
+                if x.get('kind') in ('ExprWithCleanups', 'ParenExpr'):
+                    x = tu.strip(tu.kids(x)[0], casts=True)
+                    continue
+                break
+            neg = False
+            while x is not None and x.get('kind') == 'UnaryOperator' and x.get('opcode') == '!':
+                neg = not neg
+                x = tu.strip(tu.kids(x)[0], casts=True)
+            if x is not None and x.get('kind') == 'DeclRefExpr':
+                vd_ = tu.node(x.get('referencedDecl', {}).get('id'))
+                if vd_ is not None and vd_.get('kind') == 'VarDecl' and tu.kids(vd_) and \
+                        'const' in vd_.get('type', {}).get('qualType', ''):
+                    x = tu.strip(tu.kids(vd_)[0], casts=True)
+            if x is None or x.get('kind') not in ('CallExpr', 'CXXMemberCallExpr'):
+                return None
+            callee = tu.callee_fn(x)
+            if callee is None or not callee['q'].startswith(TR) or tu.body(callee) is None or \
+                    bare_ret(callee) != 'bool':
+                return None
+            return x, callee, neg
+
+        def bare_ret(fn):
+            return (fn.get('ret') or fn.get('fty', '').split('(')[0]).strip()
+
+        def returns(n, conds):
+            k = n.get('kind')
+            if k == 'ReturnStmt':
+                yield n, list(conds)
+                return
+            if k == 'LambdaExpr':
+                return
+            if k == 'IfStmt':
+                ks = [c for c in n.get('inner', ()) if isinstance(c, dict) and c.get('kind')]
+                if len(ks) >= 2:
+                    yield from returns(ks[1], conds + [(ks[0], True)])
+                if len(ks) >= 3:
+                    yield from returns(ks[2], conds + [(ks[0], False)])
+                return
+            if k in ('SwitchStmt', 'WhileStmt'):
+                ks = [c for c in n.get('inner', ()) if isinstance(c, dict) and c.get('kind')]
+                if len(ks) >= 2:
+                    # inside a switch / loop body the selector has been evaluated; which value it had is not tracked
+                    yield from returns(ks[-1], conds + [(ks[0], None)])
+                return
+            for c in n.get('inner', ()):
+                if isinstance(c, dict) and c.get('kind'):
+                    yield from returns(c, conds)
+
+        def expand(sk, conds, evids, via=(), depth=0):
+            for i, (c, pol) in enumerate(conds):
+                bc = bool_call(c) if pol is not None else None
+                if bc is None or depth > 3:
+                    continue
+                call, callee, neg = bc
+                want = (pol != neg)           # value of the call on the way to the skip
+                args = tu.call_parts(call)[2]
+                evids2 = set(evids)
+                for p_, a in zip(callee.get('params', []), args):
+                    if tu.ref_decl(a) in evids:
+                        evids2.add(p_['id'])
+                alts = []
+                for r, rconds in returns(tu.body(callee), []):
+                    rv = tu.strip(tu.kids(r)[0], casts=True) if tu.kids(r) else None
+                    if rv is not None and rv.get('kind') == 'CXXBoolLiteralExpr':
+                        if bool(rv.get('value')) != want:
+                            continue
+                        alts.append((r, rconds))
+                    else:
+                        return [(sk, conds, evids, via)]        # value not constant on some path: keep the call as it is
+                out = []
+                for r, rconds in alts:
+                    out += expand(sk, conds[:i] + rconds + conds[i + 1:], evids2,
+                                  via + ((callee['q'].split('::')[-1], want, r),), depth + 1)
+                return out
+            return [(sk, conds, evids, via)]
+
+        expanded = []
         for sk, conds in found_skips:
+            expanded += expand(sk, conds, {entry['var']})
+
+        for sk, conds, evids, via in expanded:
             stack_empty = False
             for c, pol in conds:
                 if not pol:
@@ -3660,14 +3815,17 @@ def check_iteration(ctx, tu, f, R):
                         stack_empty = True
             if stack_empty:
                 continue          # the documented error exit: an end event without an open begin event
-            text = ' && '.join(('%s' if pol else '!(%s)') % tu.show(c) for c, pol in conds) or 'no condition'
-            if all(event_only(c) for c, pol in conds):
-                ctx.violation(R, inst, '`%s` leaves the event loop body under `%s`: recorded events (this one, or for a break the '
-                              'rest of the chunk) are dropped from the log' % (sk.get('kind'), text), tu.loc(sk),
-                              key=keyb + 'event-skipped')
+            text = ' && '.join(('%s' if pol else '!(%s)' if pol is False else 'on `%s`') % tu.show(c)
+                               for c, pol in conds) or 'no condition'
+            how = ''.join('when %s() returns %s (%s), which it does ' % (q_, 'true' if w_ else 'false', tu.loc(r_))
+                          for q_, w_, r_ in via)
+            if all(event_only(c, evids) for c, pol in conds):
+                ctx.violation(R, inst, '`%s` leaves the event loop body %sunder `%s`: recorded events (this one, or for a break the '
+                              'rest of the chunk) are dropped from the log' % (sk.get('kind'), how, text),
+                              tu.loc(via[-1][2]) if via else tu.loc(sk), key=keyb + 'event-skipped')
             else:
-                ctx.undecided(R, inst, '`%s` leaves the event loop body under `%s`, a condition that is not understood'
-                              % (sk.get('kind'), text), tu.loc(sk))
+                ctx.undecided(R, inst, '`%s` leaves the event loop body %sunder `%s`, a condition that is not understood'
+                              % (sk.get('kind'), how, text), tu.loc(sk))
             good = False
     # the stack of open begin events must survive the boundary between two storage chunks of a thread
     for vd, lctx, fn in stacks:
